@@ -69,6 +69,7 @@ type c12state struct {
 	serviceGone bool
 	sent        int
 	focus       int
+	raw         *Raw
 }
 
 func (c12) Run(c *core.Case, env *core.Env) {
@@ -134,6 +135,7 @@ func (c12) Run(c *core.Case, env *core.Env) {
 		env.Violate("setup/raw-auth", "%v %v", ok, err)
 		return
 	}
+	st.raw = raw
 	finale := c.P("finale", 0)
 	if finale == 1 {
 		raw.mu.Lock()
@@ -455,7 +457,16 @@ func (c12) Check(c *core.Case, env *core.Env, res zzsim.Result, v *core.Verdict)
 			bad("directory-refuses", "the directory no longer answers a fresh client: %s", h.Err)
 		}
 	}
+	if st.raw != nil && zzsimTracing(env) {
+		for _, rf := range st.raw.Frames() {
+			if rf.F.Type == ref.Error {
+				env.Note("hostile received error id=%d len=%d: %s", rf.F.ID, len(rf.F.Payload), ref.ErrorText(rf.F.Payload))
+			}
+		}
+	}
 	env.ProbeN("hostile-frames", st.sent)
 	env.ProbeN("probe-calls-answered", probes)
 	v.Nontrivial = st.sent > 0 && probes > 0
 }
+
+func zzsimTracing(env *core.Env) bool { return true }
